@@ -549,7 +549,7 @@ func genC03(c *Ctx) {
 								text = "<script type=\"" + pre + "\">{{.}}</script>"
 							case "after-break":
 								// the value is printed after the loop; inside the loop it is only tested
-								text = "<ul>{{with $v := .}}{{range $i := \"ab\"}}<li title=\"x{{if $v}}" + pre + "{{end}}\">y</li>{{end}}{{end}}</ul>{{.}}"
+								text = "<ul>{{range .L}}<li title=\"x{{if .}}" + pre + "{{end}}\">y</li>{{end}}</ul>{{.V}}"
 							case "after":
 								text = "<" + ctx[0] + ">x</" + ctx[0] + pre + ">{{.}}</" + ctx[0] + ">"
 							case "content":
@@ -561,6 +561,11 @@ func genC03(c *Ctx) {
 							}
 							typed := wrap(&Val{Kind: "t", Tag: tag, S: cont}, depth)
 							plain := wrap(&Val{Kind: "s", S: cont}, depth)
+							if form == "after-break" {
+								loop := &Val{Kind: "l", L: []*Val{{Kind: "i", I: 1}, {Kind: "i", I: 0}}}
+								typed = &Val{Kind: "m", Keys: []string{"L", "V"}, M: map[string]*Val{"L": loop, "V": typed}}
+								plain = &Val{Kind: "m", Keys: []string{"L", "V"}, M: map[string]*Val{"L": loop, "V": plain}}
+							}
 							// process-wide state must not matter: analyse an unrelated template in an unrelated set
 							// before some cells, and run the typed / plain executions in either order
 							if c.rng.Intn(3) == 0 {
